@@ -1,4 +1,5 @@
 import Huginn.Model.Flow
+import Huginn.Model.HttpFlow
 /-
 Per-packet cache programs of the three stateful analyzers, mirroring the `TtlCache` traffic of
   * huginn-net-tcp/src/uptime.rs        `check_ts_tcp`
@@ -145,10 +146,9 @@ def tlsParamsOf {S : Type} (parse : Bytes → AddRes S) (isTls : Bytes → Bool)
 
 /-! ### HTTP (`huginn-net-http/src/http_process.rs`) -/
 
-structure TcpData where
-  seq : Nat
-  data : Bytes
-  deriving Repr
+/-- `TcpData { sequence, data }` — the segment record of Model/HttpFlow.lean (C09's model), so that
+`get_full_data` is one definition for C07/C09/C10/C11. -/
+abbrev TcpData := Huginn.HttpFlow.Seg
 
 structure TcpFlow where
   client : Ep
@@ -157,17 +157,13 @@ structure TcpFlow where
   serverData : List TcpData
   clientParsed : Bool
   serverParsed : Bool
+  clientIsn : Nat              -- sequence number of the SYN that opened the flow
+  serverIsn : Option Nat       -- sequence number of the server's SYN-ACK, once seen
   deriving Repr
 
-/-- `TcpFlow::get_full_data`: stable sort by the raw `u32` sequence number (`sort_by_key` is
-stable), then concatenation. The list is kept in arrival order; inserting from the right with
-"before the first element whose key is not smaller" is a stable insertion sort. -/
-def fullData (ds : List TcpData) : Bytes :=
-  (ds.foldr (fun d acc => insertSeqStable d acc) []).flatMap (·.data)
-where
-  insertSeqStable (d : TcpData) : List TcpData → List TcpData
-    | [] => [d]
-    | x :: xs => if x.seq < d.seq then x :: insertSeqStable d xs else d :: x :: xs
+/-- `TcpFlow::get_full_data` (fix C09-1): segments ordered by their offset from ISN+1 modulo 2^32,
+the gap-free run from the first byte, bytes already present skipped — `HttpFlow.fullData`. -/
+def fullData (isn : Option Nat) (ds : List TcpData) : Bytes := Huginn.HttpFlow.fullData isn ds
 
 /-- Parser results observed by the flow logic. The processors may carry state `γ`
 (the HPACK decoder of `Http2Parser`). -/
@@ -226,19 +222,25 @@ def httpFinish {γ Q P : Type} (rmKey : FlowKey) (f : TcpFlow) (s : Seg) (o : Ht
   else if s.fin || s.rst then .remove rmKey (.ret o)
   else .ret o
 
-def httpWithFlow {γ Q P : Type} (H : HttpParams γ Q P) (stored : FlowKey) (isClient : Bool)
+/-- Payload bytes held in one direction's segment list (`buffered_len`). -/
+def sumLen (ds : List TcpData) : Nat := (ds.map (fun d => d.data.length)).sum
+
+/-- The data handling of `process_tcp_packet` once the flow is in hand (and a SYN-ACK's sequence
+number noted). The 64 KiB limit is on the bytes *stored* for the direction (every pushed segment,
+whether or not it is part of the gap-free run `get_full_data` returns). -/
+def httpBody {γ Q P : Type} (H : HttpParams γ Q P) (stored : FlowKey) (isClient : Bool)
     (f : TcpFlow) (s : Seg) : Prog FlowKey TcpFlow γ (PRes Q P) (HttpOut Q P) :=
   if s.payload.isEmpty then .ret {} else
   let d : TcpData := ⟨s.seq, s.payload⟩
   if isClient && s.src = f.client then
     if !f.clientParsed then
       let f1 := { f with clientData := f.clientData ++ [d] }
-      let full := fullData f1.clientData
-      if full.length > H.maxHead then
+      if sumLen f1.clientData > H.maxHead then
         -- no head within the limit: the direction is abandoned
         let f2 := { f1 with clientData := [], clientParsed := true }
         .set stored f2 (httpFinish stored f2 s {})
       else
+        let full := fullData (some f1.clientIsn) f1.clientData
         .set stored f1 <|
           httpTryReq H full fun q =>
             match q with
@@ -250,14 +252,15 @@ def httpWithFlow {γ Q P : Type} (H : HttpParams γ Q P) (stored : FlowKey) (isC
   else if s.src = f.server then
     if !f.serverParsed then
       let f1 := { f with serverData := f.serverData ++ [d] }
-      -- `get_full_data(is_client)`: the code passes `is_client` (false here unless the lookup by the
-      -- packet's own key hit, in which case the client branch was taken above or the source differs
-      -- from the stored client)
-      let full := fullData (if isClient then f1.clientData else f1.serverData)
-      if full.length > H.maxHead then
+      if sumLen f1.serverData > H.maxHead then
         let f2 := { f1 with serverData := [], serverParsed := true }
         .set stored f2 (httpFinish stored f2 s {})
       else
+        -- `get_full_data(is_client)`: the code passes `is_client` (false here unless the lookup by the
+        -- packet's own key hit, in which case the client branch was taken above or the source differs
+        -- from the stored client)
+        let full := if isClient then fullData (some f1.clientIsn) f1.clientData
+                    else fullData f1.serverIsn f1.serverData
         .set stored f1 <|
           httpTryResp H full fun r =>
             match r with
@@ -267,6 +270,15 @@ def httpWithFlow {γ Q P : Type} (H : HttpParams γ Q P) (stored : FlowKey) (isC
             | none => httpFinish stored f1 s {}
     else httpFinish stored f s {}
   else httpFinish stored f s {}
+
+/-- A SYN-flagged segment of the reverse direction gives the server's initial sequence number
+(written through `get_mut`, before the payload is looked at). -/
+def httpWithFlow {γ Q P : Type} (H : HttpParams γ Q P) (stored : FlowKey) (isClient : Bool)
+    (f : TcpFlow) (s : Seg) : Prog FlowKey TcpFlow γ (PRes Q P) (HttpOut Q P) :=
+  if s.syn && !isClient && f.serverIsn.isNone then
+    let f' := { f with serverIsn := some s.seq }
+    .set stored f' (httpBody H stored isClient f' s)
+  else httpBody H stored isClient f s
 
 def httpProg {γ Q P : Type} (H : HttpParams γ Q P) (s : Seg) :
     Prog FlowKey TcpFlow γ (PRes Q P) (HttpOut Q P) :=
@@ -281,7 +293,8 @@ def httpProg {γ Q P : Type} (H : HttpParams γ Q P) (s : Seg) :
         | some f => httpWithFlow H rkey false f s
         | none =>
           if s.syn then
-            .insert key ⟨s.src, s.dst, [⟨s.seq, s.payload⟩], [], false, false⟩ H.ttlMs (.ret {})
+            -- `TcpFlow::init`: data carried by the SYN starts one past the initial sequence number
+            .insert key ⟨s.src, s.dst, [⟨Huginn.HttpFlow.wadd s.seq 1, s.payload⟩], [], false, false, s.seq, none⟩ H.ttlMs (.ret {})
           else .ret {}
 
 /-- HTTP connection identity: the unordered endpoint pair. -/
@@ -307,8 +320,6 @@ def tcpKeyOf (fc : Seg → Bool) (s : Seg) : TcpKey := ⟨s.src, s.dst, fc s⟩
 def flowKeyOf (s : Seg) : FlowKey := ⟨s.src, s.dst⟩
 
 /-! ### size and work measures (C11) -/
-
-def sumLen (ds : List TcpData) : Nat := (ds.map (fun d => d.data.length)).sum
 
 /-- Payload bytes a flow retains. -/
 def TcpFlow.bytes (f : TcpFlow) : Nat := sumLen f.clientData + sumLen f.serverData
